@@ -225,9 +225,9 @@ fn set_contract(set: &mut dyn CoordinateSet, n: usize, dim: usize, f32kind: bool
     let (x, y) = set.xy(i);
     assert!(same(x, c[0]) && same(y, c[1]), "C19.K.set.xy: xy(i) agrees with get_coord(i)");
     let (x, y, z) = set.xyz(i);
-    if fixed_z.is_none() {
-        assert!(same(x, c[0]) && same(y, c[1]) && (same(z, c[2]) || (dim < 3 && z.is_nan())), "C19.K.set.xyz: xyz(i) agrees with get_coord(i) in the stored dimensions");
-    }
+    assert!(same(x, c[0]) && same(y, c[1]) && same(z, c[2]), "C19.K.set.xyz: xyz(i) agrees with get_coord(i), also through the height/epoch adaptors");
+    let (x, y, z, t) = set.xyzt(i);
+    assert!(same(x, c[0]) && same(y, c[1]) && same(z, c[2]) && same(t, c[3]), "C19.K.set.xyzt: xyzt(i) agrees with get_coord(i), also through the height/epoch adaptors");
     // setters agree with the trait defaults (= modify elements of get_coord, then set_coord)
     let (p, q, s): (f64, f64, f64) = (kani::any(), kani::any(), kani::any());
     set.set_xy(i, p, q);
